@@ -147,11 +147,16 @@ def run_chain(case, sb):
         rel = sb.write_csv("copied.csv", [r for r in records if r])
     expected = []
     dropped = 0
+    empty_at = None
     for i, m in enumerate(members):
         if i >= j:
             prev = expected[i - 1]
             if not prev:
-                return core.outcome(undefined=True, labels=["empty-intermediate-stage"])
+                # the predecessor hands over nothing: this stage and every later one has nothing to read. Whether
+                # the run then ends with an error is not stated; that no stage reads other data is.
+                empty_at = i
+                expected += [[] for _ in members[i:]]
+                break
             src = sb.write_csv(f"stage{i}.csv", prev)
         else:
             src = rel
@@ -180,14 +185,18 @@ def run_chain(case, sb):
     out = real.run_group(cps, "chain", fname, "collect_paths")
     problems = []
     summary = {"csvpaths": texts, "records": records, "expected_lines": expected}
-    if out["raised"]:
+    if out["raised"] and empty_at is not None:
+        pass   # nothing to read after an empty predecessor: ending the run with an error is admitted
+    elif out["raised"]:
         problems.append({"raised": out["raised"]})
     else:
         gdir = os.path.join(sb.root, "archive", "chain")
         rd = [d for d in os.listdir(gdir) if os.path.isdir(os.path.join(gdir, d))]
         for i, (m, o) in enumerate(zip(members, out["members"])):
-            if o["lines"] != expected[i]:
+            if o["lines"] != expected[i] and not (empty_at is not None and i >= empty_at and not o["lines"]):
                 problems.append({"stage": i, "expected_lines": expected[i], "observed_lines": o["lines"]})
+            if empty_at is not None and i >= empty_at:
+                continue
             try:
                 with open(os.path.join(gdir, rd[0], m["id"], "manifest.json")) as f:
                     man = json.load(f)
@@ -204,7 +213,7 @@ def run_chain(case, sb):
                 if man.get("source_mode_preceding"):
                     problems.append({"stage": i, "source_mode_preceding": True, "expected": False})
     ok = not problems
-    return core.outcome(ok=ok, nontrivial=dropped >= 2, labels=["shape:chain", f"stages:{len(members)}"] + (["via-results-reference"] if case.get("via_ref") else []),
+    return core.outcome(ok=ok, nontrivial=dropped >= 2, labels=["shape:chain", f"stages:{len(members)}"] + (["via-results-reference"] if case.get("via_ref") else []) + (["empty-predecessor"] if empty_at is not None else []),
                         detail=None if ok else dict(summary, problems=problems[:5]), summary=summary)
 
 
@@ -241,6 +250,7 @@ def run_refs(case, sb):
     # the reader
     comps = []
     expect = {}
+    absent = []
     for i, w in enumerate(writers):
         a = last[i]
         comps.append(["=", f"r{i}", [], None, ["ref", f"$g.variables.{w['var']}"]])
@@ -250,6 +260,10 @@ def run_refs(case, sb):
         if keys:
             comps.append(["=", f"t{i}", [], None, ["ref", f"$g.variables.{w['var']}t.{keys[0]}"]])
             expect[f"t{i}"] = tv[keys[0]]
+        if isinstance(a["variables"].get(w["var"] + "t"), dict):
+            # a tracking key the most recent run did not leave: the reference has no value (never the whole dict)
+            comps.append(["=", f"n{i}", [], None, ["ref", f"$g.variables.{w['var']}t.nokey9"]])
+            absent.append(f"n{i}")
         if " " not in w["hdr"]:
             ref = f"$g.headers.{w['hdr']}" + (f".{w['id']}" if multi else "")
             comps.append(["=", f"h{i}", [], None, ["ref", ref]])
@@ -271,6 +285,9 @@ def run_refs(case, sb):
                 continue
             if core.jsonable(got.get(k)) != core.jsonable(v):
                 problems.append({"variable": k, "expected": v, "observed": got.get(k)})
+        for k in absent:
+            if got.get(k) is not None:
+                problems.append({"variable": k, "expected": "no value (the referenced key does not exist in the latest run)", "observed": got.get(k)})
         if out["members"][0]["errors"]:
             problems.append({"reader_errors": out["members"][0]["errors"]})
     differ = len(finals) >= 2 and any(finals[-1][i]["variables"] != finals[-2][i]["variables"] for i in range(len(writers)))
